@@ -47,6 +47,9 @@ def get_fn_arity_str(arity):
 
 
 class KGFn:
+    # set by the parser on a function written in braces (a holds its body)
+    literal = False
+
     def __init__(self, a, args, arity, global_params=None):
         self.a = a
         self.args = args
@@ -499,7 +502,8 @@ def get_fn_arity(f):
        return sum(1 for x in set(f.args) if in_map(x, reserved_fn_symbols) or (x is None))
     def _e(f, level=0):
         if isinstance(f, KGFn):
-            x = _e(f.a, level=1)
+            # x, y and z in the body of a nested function are that function's own parameters
+            x = set() if f.literal else _e(f.a, level=1)
             if isinstance(f.args, list):
                 for q in f.args:
                     x.update(_e(q, level=1))
